@@ -378,7 +378,12 @@ func (t *translator) needFunc(name string) bool {
 				}
 			}
 			ok := true
+			depNames := make([]string, 0, len(deps))
 			for d := range deps {
+				depNames = append(depNames, d)
+			}
+			sort.Strings(depNames) // the order of production decides the order of emission: keep it deterministic
+			for _, d := range depNames {
 				if !t.needAny(d) {
 					ok = false
 					t.fail(name, "override depends on "+d+" which could not be produced")
